@@ -8,6 +8,24 @@ HERE = os.path.dirname(os.path.dirname(os.path.abspath(__file__)))
 TECH = "deterministic simulation with fault injection: "
 
 CHECKS = {
+    "C04": dict(
+        level="exploration",
+        text=("Seeded simulated histories on a holder object with ten List/Dict/Set traits "
+              "(Int, CInt, String(maxlen), bounded List, nested List(List(Int)), "
+              "Dict(CInt, List(Int)), List(Instance), List(Checked) with a fault-point "
+              "validator): every mutator of the quantifier on every container and on the nested "
+              "inner containers with valid/convertible/invalid items and arbitrary indices and "
+              "slices, whole-value assignment, pickle restart and deepcopy/clone fork with the "
+              "history continuing on the restored object. After every op all containers must "
+              "equal a plain-Python model, every element must pass an independent predicate, "
+              "and a rejected op must raise TraitError (or the built-in's own class when it is "
+              "also ill-formed), change nothing and call none of the name / name_items / "
+              "observe recorders. Sampling, not proof."),
+        note=("Trusts the hand-written models of Int/CInt/String/List item conversion; a "
+              "container whose owner died stops validating by design and is not checked."),
+        technique=TECH + "seeded op/fault/restart histories on container traits against plain "
+                         "Python container models with bounds",
+        design="4 (C04)"),
     "C05": dict(
         level="exploration",
         text=("Seeded simulated histories over all 16 TraitList mutators (all int indices / "
